@@ -253,8 +253,11 @@ static bool dss_run_once(std::vector<std::pair<std::string, std::string> > &pend
 		} catch (std::exception &e) { exc = e.what(); }
 		bool v = false, v2 = false; try { v = ok && dss.Verify(m, r, s); v2 = ok2 && dss.Verify(m, r2, s2); } catch (...) {}
 		res << "gen=" << g << "\n" << "ret=" << ok << "\n" << "exc=" << exc << "\n" << "r=" << hx(r) << "\n" << "s=" << hx(s) << "\n" << "y=" << hx(dss.y) << "\n" << "verify=" << v << "\n";
+		res << "x=" << hx(dss.x_i) << "\n";
+		res << "qualx="; if (dss.dkg && dss.dkg->x_rvss) for (size_t k = 0; k < dss.dkg->x_rvss->QUAL.size(); k++) res << (k ? "," : "") << dss.dkg->x_rvss->QUAL[k]; res << "\n";
+		res << "qual="; for (size_t k = 0; k < dss.QUAL.size(); k++) res << (k ? "," : "") << dss.QUAL[k]; res << "\n";
 		res << "refresh=" << rf << "\n" << "ret2=" << ok2 << "\n" << "r2=" << hx(r2) << "\n" << "s2=" << hx(s2) << "\n" << "verify2=" << v2 << "\n";
-		{ std::string l = e1.str().substr(e1.str().size() > 600 ? e1.str().size() - 600 : 0) + "|SIGN|" + e2.str().substr(e2.str().size() > 2500 ? e2.str().size() - 2500 : 0); std::replace(l.begin(), l.end(), '\n', '~'); res << "log=" << l << "\n"; }
+		{ std::string l = e1.str().substr(e1.str().size() > 600 ? e1.str().size() - 600 : 0) + "|SIGN|" + e2.str().substr((e2.str().size() > 2500 && !getenv("VERIF_DEBUG")) ? e2.str().size() - 2500 : 0); std::replace(l.begin(), l.end(), '\n', '~'); res << "log=" << l << "\n"; }
 	});
 	std::string fs; for (size_t i = 0; i < n; i++) fs += faulty[i] ? '1' : '0';
 	std::string ctx = "n=" + std::to_string(n) + " t=" + std::to_string(t) + " faulty=" + fs + " refresh=" + std::to_string(refresh) + " seed=" + std::to_string(seed) + " m=" + hx(m) + " p=" + hx(G.p) + " q=" + hx(G.q) + " g=" + hx(G.g) + " h=" + hx(G.h);
@@ -264,7 +267,26 @@ static bool dss_run_once(std::vector<std::pair<std::string, std::string> > &pend
 		for (auto &f : fails) verif::propfail(f.first, f.second);
 		return true; };
 	fprintf(stderr, "c16: dss %s wall=%.1fs\n", ctx.substr(0, 56).c_str(), FR.wall);
+	if (getenv("VERIF_DEBUG")) { for (size_t i = 0; i < n; i++) fprintf(stderr, "LOG P%zu: %s\n", i, res_get(FR.text[i], "log").c_str()); fprintf(stderr, "ERRLOG: %s\n", FR.errlog.substr(0, 6000).c_str()); }
 	if (FR.timed_out) { propfail("dss-timeout", "threshold DSS run did not finish within the wall-clock limit: " + ctx); mpz_clear(m); return finish(); }
+	// the key shares of the honest signers (before any refresh) must interpolate to log_g y: C15's statement, checked here because
+	// every signature is invalid otherwise
+	bool key_mismatch = false;
+	if (!refresh) {
+		std::vector<size_t> hs; for (size_t i = 0; i < n && hs.size() < t + 1; i++) if (!faulty[i] && res_get(FR.text[i], "ret") == "1") hs.push_back(i);
+		if (hs.size() == t + 1) {
+			mpz_t x, num, den, xi, y, gx; mpz_init(x); mpz_init(num); mpz_init(den); mpz_init(xi); mpz_init(y); mpz_init(gx);
+			for (size_t a : hs) { mpz_set_ui(num, 1); mpz_set_ui(den, 1);
+				for (size_t b : hs) if (b != a) { mpz_mul_ui(num, num, b + 1); mpz_set_si(xi, (long)(b + 1) - (long)(a + 1)); mpz_mul(den, den, xi); }
+				mpz_mod(den, den, G.q); mpz_invert(den, den, G.q); mpz_mul(num, num, den);
+				mpz_set_str(xi, res_get(FR.text[a], "x").c_str(), 16); mpz_mul(num, num, xi); mpz_add(x, x, num); mpz_mod(x, x, G.q); }
+			mpz_set_str(y, res_get(FR.text[hs[0]], "y").c_str(), 16); mpz_powm(gx, G.g, x, G.p);
+			if (mpz_cmp(gx, y) != 0) { key_mismatch = true;
+				propfail("dss-key-share-mismatch", "the honest signers' key shares interpolate to x=" + hx(x) + " with g^x=" + hx(gx) + " but the public key is y=" + hx(y) +
+					" (QUAL of the sharing phase {" + res_get(FR.text[hs[0]], "qualx") + "}, final QUAL {" + res_get(FR.text[hs[0]], "qual") + "}); every signature of this run is invalid: " + ctx); }
+			mpz_clear(x); mpz_clear(num); mpz_clear(den); mpz_clear(xi); mpz_clear(y); mpz_clear(gx);
+		}
+	}
 	for (int round = 0; round < (refresh ? 2 : 1); round++) {
 		const char *kr = round ? "r2" : "r", *ks = round ? "s2" : "s", *kret = round ? "ret2" : "ret", *kv = round ? "verify2" : "verify";
 		std::string r0, s0, y0; bool first = true;
@@ -274,11 +296,12 @@ static bool dss_run_once(std::vector<std::pair<std::string, std::string> > &pend
 			if (first) { r0 = res_get(R, kr); s0 = res_get(R, ks); y0 = res_get(R, "y"); first = false; }
 			else if (r0 != res_get(R, kr) || s0 != res_get(R, ks) || y0 != res_get(R, "y"))
 				propfail("dss-signatures-differ", "honest signers hold different results: P" + std::to_string(i) + " (r,s,y)=(" + res_get(R, kr) + "," + res_get(R, ks) + "," + res_get(R, "y") + ") vs (" + r0 + "," + s0 + "," + y0 + "): " + ctx);
-			if (res_get(R, kv) != "1") propfail("dss-library-verify", "the library verifier refuses the signature of honest signer " + std::to_string(i) + ": " + ctx);
+			if (res_get(R, kv) != "1" && !key_mismatch) propfail("dss-library-verify", "the library verifier refuses the signature of honest signer " + std::to_string(i) + ": " + ctx);
 		}
 		if (!first) {
 			mpz_t r, s, y; mpz_init(r); mpz_init(s); mpz_init(y);
 			mpz_set_str(r, r0.c_str(), 16); mpz_set_str(s, s0.c_str(), 16); mpz_set_str(y, y0.c_str(), 16);
+			if (key_mismatch) { mpz_clear(r); mpz_clear(s); mpz_clear(y); continue; }
 			if (!dsa_textbook(G, y, m, r, s)) propfail("dss-textbook", std::string("the output (r,s)=(") + r0 + "," + s0 + ")" + (round ? " after refresh" : "") + " is not a valid DSA signature under y=" + y0 + ": " + ctx);
 			RecS(recs, "dss_verify").z(G.p).z(G.q).z(G.g).z(G.h).z(y).z(m).z(r).z(s).t("accept");
 			mpz_clear(r); mpz_clear(s); mpz_clear(y);
@@ -290,7 +313,7 @@ static bool dss_run_once(std::vector<std::pair<std::string, std::string> > &pend
 
 // a failure of the validity kind (an honest party's output of a completed run does not verify) that repeats in every attempt is
 // reported even though time-outs expired in all of them; failures to complete and disagreements under time-outs never are
-static bool validity_kind(const std::string &k) { return k.find("textbook") != k.npos || k.find("library-verify") != k.npos || k.find("s-range") != k.npos; }
+static bool validity_kind(const std::string &k) { return k.find("key-share-mismatch") != k.npos || k.find("textbook") != k.npos || k.find("library-verify") != k.npos || k.find("s-range") != k.npos; }
 template<class F> static void attempts(const char *what, size_t n, F once) {
 	std::vector<std::vector<std::pair<std::string, std::string> > > all;
 	for (int attempt = 0; attempt < 3; attempt++) { std::vector<std::pair<std::string, std::string> > pend; if (once(attempt, pend)) return; all.push_back(pend);
